@@ -2177,6 +2177,238 @@ def _stmt_of(f: Func, node):
     return cur if cur is not None else node
 
 
+# ---------------------------------------------------------------------------
+# R17 the two constructors bind the same public per-request attributes
+# ---------------------------------------------------------------------------
+
+# public attributes that exist on one stack only (one reason each)
+R17_ONE_STACK: Dict[str, str] = {
+    'env': 'the WSGI environ; asgi.Request.env raises by documented design (R2_EXCLUDED)',
+    'stream': 'bound by the WSGI constructor; a lazy property on ASGI (C07 R6)',
+    'scope': 'the ASGI connection scope; no WSGI counterpart',
+}
+
+
+def _ctor_always_bound(p, cq):
+    """(constructor, attributes `self.<a> = ...` bound on EVERY normal path of the constructor)."""
+    f = p.func(cq + '.__init__')
+    cfg = cfg_of(f, p)
+
+    def stores(n):
+        res = set()
+        if n.kind == 'stmt' and isinstance(n.ast, (ast.Assign, ast.AnnAssign, ast.AugAssign)):
+            if isinstance(n.ast, ast.AnnAssign) and n.ast.value is None:
+                return res
+            tg = n.ast.targets if isinstance(n.ast, ast.Assign) else [n.ast.target]
+            for t in tg:
+                for tt in (t.elts if isinstance(t, (ast.Tuple, ast.List)) else [t]):
+                    if isinstance(tt, ast.Attribute) and isinstance(tt.value, ast.Name) and tt.value.id == 'self':
+                        res.add(tt.attr)
+        return res
+
+    def transfer(n, facts, label):
+        return facts if label == 'exc' else facts | frozenset(stores(n))
+
+    IN = flow.forward(cfg, transfer, frozenset(), must=True)
+    return f, cfg, set(IN.get(cfg.exit, frozenset()))
+
+
+def _declared_public(p, cq) -> Dict[str, ast.AST]:
+    """Public attributes the class body itself declares without a value (`name: T`): the documented per-request attributes."""
+    c = p.cls(cq)
+    out = {}
+    for s in c.node.body:
+        if isinstance(s, ast.AnnAssign) and s.value is None and isinstance(s.target, ast.Name) and is_public(s.target.id):
+            out[s.target.id] = s
+    return out
+
+
+def r17_ctor_attribute_parity(run):
+    """"The same application logic ... sees the same request": a public per-request attribute that one request class binds at
+    construction is there on the other stack as well -- bound on every path of that constructor, or supplied by the class
+    (an effective property / method / class-level default) -- unless it is tabled as existing on one stack only.  Each
+    class's own constructor also binds every public attribute the class body declares (`name: T` without a value; the
+    classes use __slots__, so an unbound one raises AttributeError on first read).  (R8 looks only at attributes the
+    constructor stores on SOME path; an attribute whose only store was removed is outside its scope.)
+    Witness: a process_request middleware reading req.uri_template before routing: AttributeError -> 500 on one stack,
+    None on the other."""
+    p = run.project
+    bound = {}
+    for cq in (WSGI_REQ, ASGI_REQ):
+        f, cfg, always = _ctor_always_bound(p, cq)
+        run.use_cfg(cfg)
+        if _calls_super_init(f):
+            raise UnknownIdiom('%s.__init__ delegates to the base constructor: bound attributes cannot be read from one body' % cq)
+        bound[cq] = (f, always)
+
+    def supplied(cq, attr) -> bool:
+        if attr in effective_members(p, cq):
+            return True
+        _owner, default = p.lookup_class_attr(cq, attr)
+        return default is not None
+
+    for here, there in ((WSGI_REQ, ASGI_REQ), (ASGI_REQ, WSGI_REQ)):
+        f_there, always_there = bound[there]
+        for attr in sorted(a for a in bound[here][1] if is_public(a)):
+            if attr in R17_ONE_STACK:
+                continue
+            ok = attr in always_there or supplied(there, attr)
+            run.check(ok, 'req.%s is bound by %s.__init__ on every path, so %s provides it as well (constructor on every path, or a class-level member)'
+                      % (attr, here, there), f_there, 'binding of self.%s in %s.__init__' % (attr, there), where=f_there.loc(),
+                      runtime_witness='middleware reading req.%s before routing: AttributeError (a 500) on %s, a value on %s' % (attr, there, here))
+    for cq in (WSGI_REQ, ASGI_REQ):
+        f, always = bound[cq]
+        for attr, node in sorted(_declared_public(p, cq).items()):
+            ok = attr in always or attr in p.cls(cq).methods or attr in getattr(p.cls(cq), 'accessors', {})
+            run.check(ok, '%s declares the per-request attribute `%s` and its constructor binds it on every path' % (cq, attr), f,
+                      'declared attribute self.%s in %s.__init__' % (attr, cq), where=f.loc(),
+                      runtime_witness='req.%s read before anything else assigned it: AttributeError (the class uses __slots__)' % attr)
+
+
+# ---------------------------------------------------------------------------
+# R18 / R19 the simulated-request drivers: same defaults, same conversions of the shared parameters
+# ---------------------------------------------------------------------------
+
+DRIVER_PAIRS = (
+    ('falcon.testing.helpers.create_environ', 'falcon.testing.helpers.create_scope'),
+    ('falcon.testing.client.simulate_request', 'falcon.testing.client._simulate_request_asgi'),
+)
+# (wsgi-side function, parameter) -> documented reason why the defaults differ
+R18_DEFAULT_DIFFERS: Dict[Tuple[str, str], str] = {
+    ('falcon.testing.helpers.create_environ', 'scheme'):
+        "wsgi.url_scheme is mandatory (default 'http'); the ASGI scope's scheme key is optional and create_scope omits it when not given",
+}
+
+
+def _defaults(f: Func) -> Dict[str, ast.AST]:
+    a = f.node.args
+    pos = a.posonlyargs + a.args
+    out = dict(zip([x.arg for x in pos[len(pos) - len(a.defaults):]], a.defaults))
+    for k, v in zip(a.kwonlyargs, a.kw_defaults):
+        if v is not None:
+            out[k.arg] = v
+    return out
+
+
+def r18_driver_defaults(run):
+    """"Driving either app through falcon.testing's simulated requests yields the same result": a parameter the WSGI
+    driver and its ASGI twin share has the same default on both sides (ASGIConductor / the conductor helpers forward
+    **kwargs, so the twin's own defaults are what an omitted argument means).  Compared by folded value.
+    Witness: ASGIConductor.simulate_get('/', params={'a': ['1', '2']}) sends a=1,2 where the WSGI client sends a=1&a=2."""
+    p = run.project
+    for wq, aq in DRIVER_PAIRS:
+        fw, fa = p.func(wq), p.func(aq)
+        run.use(fw)
+        run.use(fa)
+        dw, da = _defaults(fw), _defaults(fa)
+        shared = sorted(set(dw) & set(da))
+        if len(shared) < 5:
+            raise AnchorError('%s / %s share only %d defaulted parameter(s)' % (wq, aq, len(shared)))
+        for name in shared:
+            if any(isinstance(d, ast.Constant) and d.value is Ellipsis for d in (dw[name], da[name])):
+                raise UnknownIdiom('%s / %s: an @overload stub was indexed instead of the implementation' % (wq, aq))
+            vw, va = p.fold(fw.module, dw[name], None, fw), p.fold(fa.module, da[name], None, fa)
+            same = (vw == va and type(vw) is type(va)) if (vw is not UNKNOWN and va is not UNKNOWN) else unparse(dw[name]) == unparse(da[name])
+            reason = R18_DEFAULT_DIFFERS.get((wq, name))
+            if reason is not None:
+                run.ok('%s / %s: the default of `%s` differs by design (%s)' % (fw.name, fa.name, name, reason), fa.loc(), '%s=%s' % (name, unparse(da[name])))
+                continue
+            run.check(same, '%s and %s agree on the default of the shared parameter `%s`' % (fw.name, fa.name, name), fa,
+                      '%s: %s (WSGI twin: %s)' % (name, unparse(da[name]), unparse(dw[name])), where=fa.loc(da[name]),
+                      runtime_witness='the same simulated request, `%s` not given: the ASGI driver uses %s where the WSGI driver uses %s'
+                                      % (name, unparse(da[name]), unparse(dw[name])))
+
+
+# calls that inspect or render a value without converting / validating it
+_NEUTRAL_CALLS = frozenset(('builtins.isinstance', 'builtins.len', 'builtins.iter', 'builtins.callable', 'builtins.getattr', 'builtins.hasattr',
+                            'builtins.print', 'builtins.repr', 'builtins.type', 'builtins.id', 'builtins.bool',
+                            'builtins.str', 'builtins.format'))      # total renderings: they neither reject nor normalise an input
+
+
+def _param_conversions(p, f: Func, depth=0) -> Dict[str, Set[str]]:
+    """parameter -> qualified names of the functions it is handed to as an argument (directly, or wrapped in another such
+    call: `str(int(port))` counts both), looking through module-level helpers that are called for their effect only."""
+    params = [a for a in f.params() if a not in ('self', 'cls')]
+    out: Dict[str, Set[str]] = {a: set() for a in params}
+    parent = enclosing_map(f.node)
+
+    def qual(c):
+        t = p.resolve_callable(f, c.func)
+        if isinstance(t, Func):
+            return t.qual, t
+        if isinstance(t, str):
+            return t, None
+        return None, None
+
+    def params_of(e):
+        if isinstance(e, ast.Name) and e.id in out:
+            return {e.id}
+        if isinstance(e, ast.Call):
+            q, _t = qual(e)
+            if q is not None and q not in _NEUTRAL_CALLS:
+                res = set()
+                for a in list(e.args) + [k.value for k in e.keywords]:
+                    res |= params_of(a)
+                return res
+        return set()
+
+    for c in walk_no_nested(f.node):
+        if not isinstance(c, ast.Call):
+            continue
+        q, t = qual(c)
+        if q is None or q in _NEUTRAL_CALLS:
+            continue
+        effect_only = isinstance(parent.get(id(c)), ast.Expr)
+        if effect_only and t is not None and t.cls is None and t.module is f.module and depth < 2:
+            inner = _param_conversions(p, t, depth + 1)
+            tps = [a for a in t.params()]
+            for i, a in enumerate(c.args):
+                if isinstance(a, ast.Name) and a.id in out and i < len(tps):
+                    out[a.id] |= inner.get(tps[i], set())
+            for k in c.keywords:
+                if isinstance(k.value, ast.Name) and k.value.id in out and k.arg in inner:
+                    out[k.value.id] |= inner[k.arg]
+            continue
+        for a in list(c.args) + [k.value for k in c.keywords]:
+            for name in params_of(a):
+                out[name].add(q)
+    return out
+
+
+def r19_driver_conversions(run):
+    """create_environ and create_scope take the same simulated request apart: a parameter both accept is put through the
+    same conversion / validation functions on both sides (`_fixup_http_version(http_version)` -- alias normalisation and
+    ValueError for an unknown version; `int(port)` -- a numeric string is documented to be accepted; `uri.decode(path)`).
+    Compared as sets of resolved callees per shared parameter, helper functions that are called for their effect looked
+    through.  Witness: simulate_get(http_version='1') answers 200 on the WSGI twin and raises UnsupportedError on the
+    ASGI twin; port='80' yields `Host: example.org:80` on ASGI and `Host: example.org` on WSGI."""
+    p = run.project
+    wq, aq = DRIVER_PAIRS[0]
+    fw, fa = p.func(wq), p.func(aq)
+    run.use(fw)
+    run.use(fa)
+    cw, ca = _param_conversions(p, fw), _param_conversions(p, fa)
+    shared = sorted(set(cw) & set(ca))
+    if len(shared) < 5:
+        raise AnchorError('%s / %s share only %d parameter(s)' % (wq, aq, len(shared)))
+    n_conv = 0
+    for name in shared:
+        n_conv += bool(cw[name] or ca[name])
+        for (here, there, fh, ft, ch, ct) in ((wq, aq, fw, fa, cw, ca), (aq, wq, fa, fw, ca, cw)):
+            missing = sorted(ch[name] - ct[name])
+            if missing:
+                run.fail('%s puts the shared parameter `%s` through %s; %s does not: the two drivers hand different requests to the twins'
+                         % (fh.name, name, ', '.join(m.rsplit('.', 1)[-1] + '()' for m in missing), ft.name), ft,
+                         '`%s`: %s applied by %s only' % (name, ', '.join(m.rsplit('.', 1)[-1] + '()' for m in missing), fh.name), where=ft.loc(),
+                         runtime_witness="the same simulate_get(..., %s=<alias / numeric string>) on a WSGI/ASGI twin: one driver normalises or rejects "
+                                         "the value, the other passes it on as it is" % name)
+        if not (cw[name] - ca[name]) and not (ca[name] - cw[name]):
+            run.ok('create_environ / create_scope: the shared parameter `%s` goes through the same conversions {%s}'
+                   % (name, ', '.join(sorted(m.rsplit('.', 1)[-1] for m in cw[name])) or '-'), fa.loc(), name)
+    if n_conv < 3:
+        raise AnchorError('%s / %s: fewer than three shared parameters are converted at all (anchor moved?)' % (wq, aq))
+
+
 def check(run):
     run.assume('whole-behaviour equality is not decided; the parity obligations between the hand-duplicated siblings are')
     run.assume('R4 (dispatch parity) = C03 R1 + C04 R3 + C05 R3/R4: decided by those checks, not re-evaluated here')
@@ -2208,3 +2440,6 @@ def check(run):
     run.rule('R15', r15_one_shot_scope_fields, "scope['client'] / scope['server'] (possibly forward-only iterables) are consumed at one memoised site per request", floor=2)
     run.assume('the Cython twin of falcon.util.misc._encode_items_to_latin1 (not built here) behaves like the pure-Python fallback')
     run.rule('R16', r16_header_emitters, 'header emitters: each stored (name, value) is delivered unchanged by both stacks apart from the tabled ASGI byte encoding', floor=6)
+    run.rule('R17', r17_ctor_attribute_parity, 'the two request constructors bind the same public per-request attributes; declared attributes are bound', floor=15)
+    run.rule('R18', r18_driver_defaults, 'WSGI / ASGI test drivers: shared parameters have the same defaults', floor=20)
+    run.rule('R19', r19_driver_conversions, 'create_environ / create_scope: shared parameters go through the same conversion / validation functions', floor=8)
